@@ -344,11 +344,17 @@ def sched_configs(tier="quick"):
             out.append(dict(env="ffsp", stages=s, mas=k, jobs=j, flatten=flat, n=j * s))
     # unusual magnitudes: wide spread of unrelated-machine run times on tiny flow shops (sentinels in the schedule table must
     # never win the makespan), and long horizons (processing times in a fine time unit: makespans beyond 10^4)
+    out.append(dict(env="ffsp", stages=2, mas=2, jobs=3, flatten=True, n=6, tmax=3, tmin=0))  # zero run times (documented min_time=0)
+    out.append(dict(env="ffsp", stages=2, mas=3, jobs=4, flatten=False, n=8, tmax=2, tmin=0))
     out.append(dict(env="ffsp", stages=2, mas=2, jobs=2, flatten=True, n=4, tmax=80))
     out.append(dict(env="ffsp", stages=2, mas=3, jobs=2, flatten=False, n=4, tmax=200))
     out.append(dict(env="fjsp", jobs=4, mas=2, min_ops=2, max_ops=3, mask_no_ops=True, n=12, pmax=6000))
     out.append(dict(env="jssp", jobs=4, mas=3, one2one=True, mask_no_ops=True, n=12, pmax=6000))
     out.append(dict(env="jssp", jobs=3, mas=2, min_ops=1, max_ops=2, one2one=False, mask_no_ops=False, n=6, pmax=9000))
+    # processing times of ~1e5 that differ by single units (times given in a fine unit): completion events closer together than
+    # any relative tolerance of the clock value
+    out.append(dict(env="fjsp", jobs=4, mas=3, min_ops=2, max_ops=3, mask_no_ops=True, n=12, pmin=100000, pmax=100003))
+    out.append(dict(env="jssp", jobs=4, mas=3, one2one=True, mask_no_ops=False, n=12, pmin=100000, pmax=100003))
     # production sizes (the generators' defaults and above)
     out.append(dict(env="fjsp", jobs=10, mas=5, min_ops=4, max_ops=6, mask_no_ops=True, n=60, pmax=20))
     out.append(dict(env="jssp", jobs=10, mas=6, one2one=True, mask_no_ops=True, n=60, pmax=99))
@@ -450,15 +456,15 @@ def make_other(cfg):
     name = cfg["env"]
     kw = dict(_torchrl_mode=True) if cfg.get("torchrl") else {}
     if name == "fjsp":
-        gp = dict(num_jobs=cfg["jobs"], num_machines=cfg["mas"], min_ops_per_job=cfg["min_ops"], max_ops_per_job=cfg["max_ops"], max_processing_time=cfg.get("pmax", 9))
+        gp = dict(num_jobs=cfg["jobs"], num_machines=cfg["mas"], min_ops_per_job=cfg["min_ops"], max_ops_per_job=cfg["max_ops"], max_processing_time=cfg.get("pmax", 9), **({"min_processing_time": cfg["pmin"]} if "pmin" in cfg else {}))
         return E.FJSPEnv(generator_params=gp, mask_no_ops=cfg["mask_no_ops"], **_js_opts(cfg), **kw)
     if name == "jssp":
-        gp = dict(num_jobs=cfg["jobs"], num_machines=cfg["mas"], max_processing_time=cfg.get("pmax", 9), one2one_ma_map=cfg["one2one"])
+        gp = dict(num_jobs=cfg["jobs"], num_machines=cfg["mas"], max_processing_time=cfg.get("pmax", 9), one2one_ma_map=cfg["one2one"], **({"min_processing_time": cfg["pmin"]} if "pmin" in cfg else {}))
         if not cfg["one2one"]:
             gp.update(min_ops_per_job=cfg["min_ops"], max_ops_per_job=cfg["max_ops"])
         return E.JSSPEnv(generator_params=gp, mask_no_ops=cfg["mask_no_ops"], **_js_opts(cfg), **kw)
     if name == "ffsp":
-        return E.FFSPEnv(generator_params=dict(num_stage=cfg["stages"], num_machine=cfg["mas"], num_job=cfg["jobs"], flatten_stages=cfg["flatten"], min_time=1, max_time=cfg.get("tmax", 6)), **kw)
+        return E.FFSPEnv(generator_params=dict(num_stage=cfg["stages"], num_machine=cfg["mas"], num_job=cfg["jobs"], flatten_stages=cfg["flatten"], min_time=cfg.get("tmin", 1), max_time=cfg.get("tmax", 6)), **kw)
     if name == "smtwtp":
         return E.SMTWTPEnv(generator_params=dict(num_job=cfg["n"]), **kw)
     if name == "flp":
